@@ -43,7 +43,8 @@ PROFILE = gf.make_profile(
     kinds={"do": 12, "if": 8, "exitcycle": 8, "return": 5,
            "assign_scalar": 6, "assign_elem": 8, "dowhile": 1, "where": 0,
            "select": 1, "call": 1, "assign_section": 1},
-    helpers=(0, 1), nstmts=(3, 6), array_intrinsics=False)
+    helpers=(0, 1), nstmts=(3, 6), array_intrinsics=False,
+    exit_with_print=35)
 
 TRANS = ["profile", "psydata", "nantest", "readonly", "extract"]
 
